@@ -12,6 +12,8 @@ def check(run):
         keys.append("de:treeinfo.Checksums:2")
     for k in keys:
         verify.verify(run, c.E, c.contracts[k])
+    # absolute checksum paths are refused for a table of ANY number of entries (witness rule)
+    verify.verify(run, c.E, c.contracts["scan:treeinfo.Checksums._validate_checksum_paths"], crosscheck=False)
     # relative-path validator of checksum paths is discovered and run by validate()
     with run.obligation("treeinfo.Checksums.validate#relative_paths_enforced", "conc+ast", ["productmd.treeinfo.Checksums.validate"]) as ob:
         names = c.src.validators(("treeinfo", "Checksums"))
